@@ -4,6 +4,7 @@ import (
 	"fmt"
 	"go/constant"
 	"go/token"
+	"go/types"
 	"sort"
 	"strings"
 
@@ -181,6 +182,7 @@ func runC13(a *A) {
 		}
 	})
 	a.Rule("shape/like-shortcut-operand", 3, func() { a.ruleLikeShortcutOperand() })
+	a.Rule("flow/null-never-rendered-for-compare", 2, func() { a.ruleNullNeverRenderedForCompare() })
 	a.Rule("shape/like-rewrite-mentions-column", 1, func() {
 		// whatever a LIKE is rewritten to has to look at the column: a constant (LIKE '%' -> true) also
 		// holds for a NULL or missing column, for which LIKE is not true
@@ -468,5 +470,65 @@ func (a *A) ruleLikeShortcutOperand() int {
 			"the literal operand is the pattern with every leading/trailing '%' removed",
 			"the literal operand "+strings.Join(bad, ", ")+" of "+op+" is not the pattern with the whole run of '%' removed (strings.Trim/TrimLeft/TrimRight with cutset \"%\"): a remaining '%' would be matched literally")
 	})
+	return n
+}
+
+// ruleNullNeverRenderedForCompare: NULL LIKE p, NULL = x ... are not true. A comparison helper that
+// renders an operand of unknown type as text (fmt.Sprintf("%v", x)) and hands the text to a string
+// comparison / LIKE matcher must not do so for a nil operand — it would compare the five characters
+// "<nil>" (NULL LIKE '%' true, NULL LIKE '_____' true). Every such rendering in package expr is
+// unreachable when the rendered operand is nil.
+func (a *A) ruleNullNeverRenderedForCompare() int {
+	n := 0
+	for _, fn := range a.ModFuncs {
+		if fn.Pkg != a.Pkg("expr") || fn.Blocks == nil {
+			continue
+		}
+		allInstrs(fn, func(in ssa.Instruction) {
+			c, ok := in.(*ssa.Call)
+			if !ok {
+				return
+			}
+			callee := c.Call.StaticCallee()
+			if callee == nil || !a.fnInModule(callee) {
+				return
+			}
+			for _, arg := range c.Call.Args {
+				sp, ok := arg.(*ssa.Call)
+				if !ok || sp.Call.StaticCallee() == nil || sp.Call.StaticCallee().Pkg == nil || sp.Call.StaticCallee().Pkg.Pkg.Path() != "fmt" || sp.Call.StaticCallee().Name() != "Sprintf" {
+					continue
+				}
+				if !strings.Contains(constText(sp.Call.Args[0]), "%v") {
+					continue
+				}
+				for _, e := range appendedElems(&sp.Call) {
+					x := e
+					if mi, ok := x.(*ssa.MakeInterface); ok {
+						x = mi.X
+					}
+					p, isParam := x.(*ssa.Parameter)
+					if !isParam {
+						continue
+					}
+					if _, isIface := p.Type().Underlying().(*types.Interface); !isIface {
+						continue
+					}
+					n++
+					reach := reachUnder(fn, c, func(v ssa.Value) Tri {
+						if bo, ok := v.(*ssa.BinOp); ok && (bo.Op == token.EQL || bo.Op == token.NEQ) && isNilConst(bo.Y) && bo.X == ssa.Value(p) {
+							if bo.Op == token.EQL {
+								return T
+							}
+							return F
+						}
+						return U
+					})
+					a.Check(!reach, fmt.Sprintf("%s#%s-rendered-to-%s", fname(fn), p.Name(), callee.Name()), c.Pos(),
+						"the operand is rendered as text for "+callee.Name()+" only when it is not nil",
+						"the operand "+p.Name()+" is rendered with %v and compared as text by "+callee.Name()+" also when it is nil: NULL is then the text \"<nil>\", which LIKE '%' and '_____' match")
+				}
+			}
+		})
+	}
 	return n
 }
